@@ -5,6 +5,7 @@ import Pyunicorn.Model.SurrogatesKernelW
 import Pyunicorn.Model.SurrogatesObject
 import Pyunicorn.Model.SurrogatesMethod
 import Pyunicorn.Model.SurrogatesCoupling
+import Pyunicorn.Model.SurrogatesWalkK
 import Pyunicorn.Generated.StructC15
 /-! Line-protocol driver for C15 (surrogates).  Matrices: rows separated by `;`,
 an empty row is `-`, the empty matrix is `E`; lists of matrices separated by `|`
@@ -48,6 +49,13 @@ def garbageN (seed : Nat) (j : Nat) : Int := (seed : Int) - 2 * (j : Int)
 
 def pickOf (draws : List Rat) : Nat → Nat → Nat := floorPick (fun c => draws.getD c 0)
 
+/-- exact unit phases: `φ` counts quarter turns, `exp(iφπ/2) ∈ {1, i, -1, -i}` -/
+def quarterTrig : Trig Int :=
+  ⟨fun q => [1, 0, -1, 0].getD (q % 4).toNat 0, fun q => [0, 1, 0, -1].getD (q % 4).toNat 0⟩
+
+def showIntPairs (o : List (Int × Int)) : String :=
+  join (o.map fun z => toString z.1 ++ "_" ++ toString z.2)
+
 def modeOf (s : String) : Mode := if s == "inplace" then .inplace else .copy
 
 def policyOf (re km : String) : Policy :=
@@ -86,6 +94,15 @@ def answer (toks : List String) : String :=
       showOpt (showMat showRats)
         (twinSurrogatesKW bits.toNat! (matOf rats d) dim.toNat! delay.toNat! ((rat? thr).getD 0)
           md.toNat! (pickOf (rats dr)) (garbageR seed.toNat!) (garbageN seed.toNat!))
+  | ["twinsurr_src", bits, dim, delay, thr, md, seed, dr, d] =>
+      showOpt (showMat showRats)
+        (twinSurrogatesSrc bits.toNat! (matOf rats d) dim.toNat! delay.toNat! ((rat? thr).getD 0)
+          md.toNat! (fun c => (rats dr).getD c 0) (garbageR seed.toNat!) (garbageN seed.toNat!))
+  | ["rp_twinsurr_src", md, ns, dr, r, emb] =>
+      match rpTwinSurrogatesSrc md.toNat! ns.toNat! (matOf bools r) (matOf rats emb)
+          (fun c => (rats dr).getD c 0) with
+      | some out => if out.isEmpty then "N" else join (out.map (showMat showRats)) "|"
+      | none => "raise:IndexError"
   | ["rp_twins_kw", md, r] => showMat showNats (rpTwinsKW md.toNat! (matOf bools r))
   | ["twins_rkw", md, n, r, nr] =>
       showMat showNats (twinsRKW md.toNat! n.toNat! (matOf bools r) (ints nr))
@@ -107,6 +124,11 @@ def answer (toks : List String) : String :=
       match cnsCalls floatTrig (floatPairs re im) ((matOf rats ph).map (·.map ratToFloat)) with
       | some outs => join (outs.map showPairs) ";"
       | none => "raise"
+  | ["cns_exact", re, im, ph] =>
+      match cnsCalls quarterTrig ((ints re).zip (ints im)) (matOf ints ph) with
+      | some outs => join (outs.map showIntPairs) ";"
+      | none => "raise"
+  | ["cnslen", n] => toString (cnsLen ((ints n).headD 0))
   | ["normalize64", ms, ss, d] =>
       match normalizeRows floatNormOps ((rats ms).map ratToFloat) ((rats ss).map ratToFloat)
           ((matOf rats d).map (·.map ratToFloat)) with
@@ -160,6 +182,14 @@ def answer (toks : List String) : String :=
   | ["walk_s", n, dr, tws] =>
       match walkRows n.toNat! (pickOf (rats dr)) (matsOf nats tws) 0 with
       | some (idx, c) => showMat showNats idx ++ "#" ++ toString c
+      | none => "raise:IndexError"
+  | ["walk_sk", n, dr, tws] =>
+      match walkKernelS n.toNat! (fun c => (rats dr).getD c 0) (matsOf nats tws) 0 with
+      | some (idx, c) => showMat showInts idx ++ "#" ++ toString c
+      | none => "raise:IndexError"
+  | ["walk_rk", n, ns, dr, tw] =>
+      match walkKernelR n.toNat! (matOf nats tw) (fun c => (rats dr).getD c 0) ns.toNat! 0 with
+      | some (idx, c) => showMat showInts idx ++ "#" ++ toString c
       | none => "raise:IndexError"
   | ["walk_r", n, ns, dr, tw] =>
       match walkRep n.toNat! (matOf nats tw) (pickOf (rats dr)) ns.toNat! 0 with
